@@ -384,7 +384,7 @@ def wellformed_filter(flt, max_ts=2145934800):
                 return False
             n += 1
         elif k in ("since", "until"):
-            if not _is_int(v) or not (0 < v < max_ts):
+            if not _is_int(v) or not (0 <= v < max_ts):
                 return False
             n += 1
         elif k == "limit":
